@@ -650,6 +650,21 @@ class SOpaque:
     def __hash__(self):
         return id(self)
 
+    # native code that handles an uninterpreted value (e.g. the result of a decoder replaced by its contract, during
+    # a native witness run): parts of it are uninterpreted too; its truth value / arithmetic are not available
+    def __getitem__(self, idx):
+        return SOpaque("item-of:" + self.tag, self, idx)
+
+    def __bool__(self):
+        raise Unsupported("truth value of an uninterpreted value (%s)" % self.tag)
+
+    def _no_arith(self, *a):
+        raise Unsupported("arithmetic / comparison on an uninterpreted value (%s)" % self.tag)
+
+    __add__ = __radd__ = __sub__ = __rsub__ = __mul__ = __rmul__ = __floordiv__ = __rfloordiv__ = __truediv__ = __rtruediv__ = _no_arith
+    __mod__ = __rmod__ = __lshift__ = __rlshift__ = __rshift__ = __rrshift__ = __and__ = __rand__ = __or__ = __ror__ = __xor__ = __rxor__ = _no_arith
+    __lt__ = __le__ = __gt__ = __ge__ = __neg__ = __index__ = __int__ = __len__ = _no_arith
+
 
 class SStr:
     """symbolic string (z3 String), only used for device paths (C19)"""
